@@ -153,6 +153,21 @@ pub fn run_c07(out: &mut Out) {
             out.nontrivial(&format!("{kind}:{seed}:{n}"));
         });
     }
+    // (a') the uniform variates the samplers draw from such a generator: `random::<f64>()`, `random::<f32>()` vs. the model
+    for _ in 0..out.n(60, 1500) {
+        let id = out.fresh_id("un");
+        let seed = seeds_of_interest(&mut rng);
+        if !out.selected(&id) {
+            continue;
+        }
+        let base = SmallRng::seed_from_u64(seed);
+        let mut a = base.clone();
+        let mut b = base.clone();
+        let f64s = (0..4).map(|_| h64(a.random::<f64>())).collect::<Vec<_>>().join(",");
+        let f32s = (0..4).map(|_| h32(b.random::<f32>())).collect::<Vec<_>>().join(",");
+        out.case(format!("c07u {id} {seed}"), format!("{id} {f64s} {f32s}"));
+        out.count("uniform_variates");
+    }
     // (b) run-level reproducibility: twice, under different pool sizes, next to concurrently running samplers, with progress
     let reps = out.n(12, 150);
     for r in 0..reps {
